@@ -3,6 +3,11 @@ M-QRY actions: relational reference model of `dbms/query/action.go`
 (`insertRecordAction`, `insertQueryAction`, `deleteAction`, `updateAction`) over two tables
 t, u (k, a, b) key(k) with integer values (core-only).
 
+Statements through `rename` / `project` / `extend` / nested `where` of a table are translated to
+the base table by the harness (a renamed column is the stored column, an extended column is
+`col + const`, a projected-away column is simply not mentioned): what this model then says about
+them is that only the assigned columns of the selected rows change.
+
 A statement selects rows by a predicate, changes exactly those, and reports their number.
 `update` evaluates every `set` expression on the row as selected (the Go code evaluates with
 `ctx.Row = row`) and applies all selected rows (finding 25 repaired: the selected rows are
@@ -45,12 +50,15 @@ def Cmp.eval : Cmp → Int → Int → Bool
 
 inductive Pred
   | cmp (c : Col) (op : Cmp) (v : Int)
+  /-- `c + off op v`: a comparison on an `extend`ed column `z = c + off` -/
+  | cmpp (c : Col) (off : Int) (op : Cmp) (v : Int)
   | and (p q : Pred)
   | or (p q : Pred)
   | all
 
 def Pred.eval : Pred → R → Bool
   | .cmp c op v, r => op.eval (r.get c) v
+  | .cmpp c off op v, r => op.eval (r.get c + off) v
   | .and p q, r => p.eval r && q.eval r
   | .or p q, r => p.eval r || q.eval r
   | .all, _ => true
@@ -79,6 +87,8 @@ def dupFree : List Int → Bool
 structure Db where
   t : List R
   u : List R
+  /-- a third table w (a, d) key(a), only used as the other side of a join -/
+  w : List (Int × Int) := []
 
 def Db.get (d : Db) (i : Nat) : List R := if i = 0 then d.t else d.u
 def Db.put (d : Db) (i : Nat) (rows : List R) : Db := if i = 0 then { d with t := rows } else { d with u := rows }
@@ -96,9 +106,17 @@ def update (d : Db) (i : Nat) (p : Pred) (asg : Asg) : Res :=
   let rows' := (d.get i).map fun r => if p.eval r then applyAsg asg r else r
   if dupFree (keys rows') then some (d.put i rows', ((d.get i).filter p.eval).length) else none
 
-/-- `insert (t where p) into u` -/
-def insertQuery (d : Db) (p : Pred) : Res :=
-  let sel := d.t.filter p.eval
+def insertW (d : Db) (a v : Int) : Res :=
+  if (d.w.map (·.1)).contains a then none else some ({ d with w := d.w ++ [(a, v)] }, 1)
+
+/-- the rows `insert (…) into u` takes from t: `t where p`, or `(t join w) where p` / `(w join t) where p`
+(join by a, which is a key of w: a row of t joins with at most one row of w) -/
+def selQ (d : Db) (p : Pred) (join : Bool) (r : R) : Bool :=
+  p.eval r && (!join || (d.w.map (·.1)).contains r.a)
+
+/-- `insert (t where p) into u`, `insert ((t join w) where p) into u` -/
+def insertQuery (d : Db) (p : Pred) (join : Bool := false) : Res :=
+  let sel := d.t.filter (selQ d p join)
   let rows' := d.u ++ sel
   if dupFree (keys rows') then some ({ d with u := rows' }, sel.length) else none
 
